@@ -1057,6 +1057,9 @@ def run(ctx):
         "arithmetic idealised (dyadic tm and durations, exact in the harness); ntcore getNumber/putNumber as a "
         "key-value map; an untimed state named x with an attribute x_duration is misuse and not modelled")
     ctx.prove()
+    # on_iteration / next_state / done, translated from the current source and proved equal to the model (Stateful/SrcIterProofs.v)
+    from . import c15_translate
+    c15_translate.obligation(ctx)
     mod = impl_mod()
     check_constructor(mod, ctx)
     check_sd_var(mod, ctx)
